@@ -274,3 +274,82 @@ pub fn invalid_base<const B: usize, const L: usize>(nd: &mut Nd) {
     };
     chk!(nd, "C09.from_base.invalid_base", got == Err(BaseConvertError::InvalidBase(base)));
 }
+
+// ---- formatting (Display/Debug/LowerHex/UpperHex/Octal/Binary), with `Formatter::pad_integral` modelled
+// (stubs::pad_integral_model).  What is decided: the digit string (and prefix) that ruint hands to pad_integral
+// - assembled from `to_base_be(MAX)` limbs, each printed by core's own u64 formatting with `{:0width$}` - is the
+// positional notation of the value in that radix, without superfluous leading zeros, "0" for zero.  The
+// width/fill/alignment handling itself is core's pad_integral, shared with the primitive integers.
+
+pub struct Sink<const N: usize> {
+    pub buf: [u8; N],
+    pub len: usize,
+    pub overflow: bool,
+}
+
+impl<const N: usize> core::fmt::Write for Sink<N> {
+    fn write_str(&mut self, s: &str) -> core::fmt::Result {
+        let b = s.as_bytes();
+        if self.len + b.len() > N {
+            self.overflow = true;
+            return Err(core::fmt::Error);
+        }
+        self.buf[self.len..self.len + b.len()].copy_from_slice(b);
+        self.len += b.len();
+        Ok(())
+    }
+}
+
+/// power-of-two radix: K bits per digit (1 binary, 3 octal, 4 hex), STYLE 0 = plain, 1 = `#`, 2 = `0` flag with width N-?;
+/// UPPER selects {:X}.  N = text buffer size.
+pub fn fmt_pow2<const B: usize, const L: usize, const K: usize, const UPPER: usize, const STYLE: usize, const N: usize>(nd: &mut Nd) {
+    use core::fmt::Write;
+    let v: Uint<B, L> = nd.uint();
+    let k = nd.upto(N);
+    let mut s = Sink::<N> { buf: [0u8; N], len: 0, overflow: false };
+    let r = match (K, UPPER, STYLE) {
+        (1, _, 0) => write!(s, "{:b}", v),
+        (1, _, _) => write!(s, "{:#b}", v),
+        (3, _, 0) => write!(s, "{:o}", v),
+        (3, _, _) => write!(s, "{:#o}", v),
+        (4, 0, 0) => write!(s, "{:x}", v),
+        (4, 0, _) => write!(s, "{:#x}", v),
+        (4, _, 0) => write!(s, "{:X}", v),
+        _ => write!(s, "{:#X}", v),
+    };
+    chk!(nd, "C09.fmt.ok", r.is_ok() && !s.overflow);
+    let bl = refm::bit_len(v.as_limbs());
+    let nd_ = if bl == 0 { 1 } else { (bl + K - 1) / K };
+    let pre = if STYLE == 0 { 0 } else { 2 };
+    chk!(nd, "C09.fmt.len", s.len == pre + nd_);
+    if STYLE != 0 {
+        let p1 = match K {
+            1 => b'b',
+            3 => b'o',
+            _ => b'x',
+        };
+        chk!(nd, "C09.fmt.prefix", s.buf[0] == b'0' && s.buf[1] == p1);
+    }
+    if k < nd_ && pre + k < N {
+        // k-th character from the left is digit number nd_-1-k
+        let pos = (nd_ - 1 - k) * K;
+        let mut d = 0u8;
+        let mut j = 0;
+        while j < K {
+            if refm::bit(v.as_limbs(), pos + j) {
+                d |= 1 << j;
+            }
+            j += 1;
+        }
+        let want = if d < 10 {
+            b'0' + d
+        } else if UPPER != 0 {
+            b'A' + d - 10
+        } else {
+            b'a' + d - 10
+        };
+        chk!(nd, "C09.fmt.digit", s.buf[pre + k] == want);
+    }
+    cov!(nd, "zero", bl == 0);
+    cov!(nd, "full-width", bl == B);
+}
